@@ -34,6 +34,15 @@ func init() {
 			}
 			runPersist(c, p, R, map[string]string{"C13.R1": "C13.R1", "C13.R2": "C13.R2", "C13.R3": "C13.R3", "C13.R4": "C13.R4", "C09.R2": "C13.R1", "C09.R4": "C13.R3"})
 			runFrames(c, p, R, map[string]string{"C09.R1": "C13.R4"})
+			// a failed append leaves nothing behind in the bundled stores that a later append depends on
+			c.Rule("C13.R5", "bundled stores' Append keeps no per-store state between calls (nothing of a failed append can poison the next)")
+			if ps := c.Prog(ModSQLite); ps != nil {
+				checkWriters(c, ps, "C13.R5", []writerSpec{{PkgSQLite, "SQLiteStore", nil}})
+			}
+			if pd := c.Prog(ModDurable); pd != nil {
+				n := checkWriters(c, pd, "C13.R5", []writerSpec{{PkgDurable, "Store", nil}})
+				c.Floor("C13.R5", "durable-streams store field writers", n, 3)
+			}
 			c.Floor("C13.R2", "error handler call sites", c.Stats["persist_error_handler_sites"], 2)
 			c.Floor("C13.R1", "path classes", c.Stats["persist_path_classes"], 5)
 			c.Assume = append(c.Assume, "the store's Append either stores the whole record or nothing")
